@@ -10,7 +10,7 @@ func init() {
 	register(&propDef{
 		id: "C19", title: "Scheduled messages are delivered as scheduled, and cancelled ones stop",
 		technique: "guard dominance in the job closure (delivery only by the winner of the cluster claim), key-composition dataflow, put-if-absent mapping rule, error-edge rule for unknown references",
-		explanation: "Decides the part of the property that is visible in the code shape: (1) cluster cron at-most-once per tick: in the job function the Tell is reached only when no claim is configured or the claim was won; a claim error or a lost claim never delivers; the claim key is composed of the schedule reference and the tick's run time; ClaimScheduleFire writes with put-if-absent plus the TTL and maps key-found to ErrScheduleFireClaimed, which claimClusterFire maps to 'not won'; a tick later than the TTL is skipped before any claim is attempted; (2) CancelSchedule / PauseSchedule / ResumeSchedule return ErrScheduledReferenceNotFound on the unknown-reference edge and act on the quartz job whose key was looked up under that reference; cancel forgets the reference on every exit; all three run under the scheduler's mutex. NOT decided: 'not before its delay', interval fidelity and 'at most one in-flight delivery after cancel' are timing behaviour of the third-party quartz scheduler.",
+		explanation: "Decides the part of the property that is visible in the code shape: (1) cluster cron at-most-once per tick: in the job function the Tell is reached only when no claim is configured or the claim was won; a claim error or a lost claim never delivers; the claim key is composed of the schedule reference and the tick's run time; ClaimScheduleFire writes with put-if-absent plus the TTL and maps key-found to ErrScheduleFireClaimed, which claimClusterFire maps to 'not won'; a tick later than the TTL is skipped before any claim is attempted; (2) CancelSchedule / PauseSchedule / ResumeSchedule return ErrScheduledReferenceNotFound on the unknown-reference edge and act on the quartz job whose key was looked up under that reference; cancel forgets the reference on every exit; all three run under the scheduler's mutex. NOT decided: 'not before its delay', interval fidelity and 'at most one in-flight delivery after cancel' are timing behaviour of the third-party quartz scheduler. Added after seed C19a: the claim entry is written with the same ttl the stale-tick guard compares against.",
 		assumptions: []string{"quartz scheduler timing and its DeleteJob/PauseJob semantics", "olric put-if-absent atomicity across nodes", "clock skew between nodes smaller than the claim TTL"},
 		minObl:     14,
 		run:        runC19,
